@@ -413,3 +413,12 @@ package route
 //@   ensures[the-rate-stored-is-the-rate-decoded] result1 == nil && readIntN() > old(readIntN()) ==> b.SampleRate == readIntLast()
 //@   loop 1 invariant[stored-as-decoded-so-far] b != nil && (readTimeN() > old(readTimeN()) && b.MsgPackTimestamp != nil ==> *b.MsgPackTimestamp == readTimeLast()) && (readIntN() > old(readIntN()) ==> b.SampleRate == readIntLast())
 //@   modifies b.MsgPackTimestamp, *b.MsgPackTimestamp, b.SampleRate, b.Data, all(readTimeN), all(readTimeLast), all(readIntN), all(readIntLast)
+
+// ---- C37 / C19: the two pass-through middlewares installed on every route hand every request on to the next handler
+// exactly once, whatever its method - neither answers a request itself (so nothing on an unhandled path is kept
+// from the proxy) - and write no status of their own.
+//@ contract route.(*Router).setResponseHeaders$lit1 props C37,C19 havoc
+//@   assert only none
+//@   requires next != nil && w != nil && req != nil
+//@   ensures[every-request-is-handed-on-once] served(next) == old(served(next)) + 1
+//@   modifies all(served), all(servedKey), all(hdr), all(respHeader), all(statusWrites), all(lastStatus), all(bodyWrites)
